@@ -62,20 +62,20 @@ func (r *Rng) Fork(tag string) *Rng {
 // Cases: generic format shared with coq/Corr/Case.v
 
 type Op struct {
-	Code int      `json:"code"`
-	Name string   `json:"name,omitempty"`
-	Args [][]byte `json:"-"`
+	Code    int      `json:"code"`
+	Name    string   `json:"name,omitempty"`
+	Args    [][]byte `json:"-"`
 	ArgsHex []string `json:"args"`
 }
 
 type Case struct {
-	Idx   int        `json:"idx"`
-	Kind  string     `json:"kind"`            // generator profile / signature class
-	Ops   []Op       `json:"ops"`
-	Obs   [][][]byte `json:"-"`               // per op: list of observed byte strings
-	ObsHex [][]string `json:"obs"`
-	NonTrivial bool  `json:"nontrivial"`
-	Note  string     `json:"note,omitempty"`
+	Idx        int        `json:"idx"`
+	Kind       string     `json:"kind"` // generator profile / signature class
+	Ops        []Op       `json:"ops"`
+	Obs        [][][]byte `json:"-"` // per op: list of observed byte strings
+	ObsHex     [][]string `json:"obs"`
+	NonTrivial bool       `json:"nontrivial"`
+	Note       string     `json:"note,omitempty"`
 }
 
 func mkOp(code int, name string, args ...[]byte) Op {
@@ -279,15 +279,15 @@ func (cs *CaseSet) WriteJSON(path string) error {
 // A real server wired with the real managers on a sandbox directory.
 
 type Env struct {
-	Dir      string // sandbox: Dir/cfg (config dir), Dir/cfg/Files (file root)
-	Cfg      string
-	FileRoot string
-	Srv      *hotline.Server
+	Dir       string // sandbox: Dir/cfg (config dir), Dir/cfg/Files (file root)
+	Cfg       string
+	FileRoot  string
+	Srv       *hotline.Server
 	SeqOutbox bool
 	stopDrain chan struct{}
-	Sent     []hotline.Transaction // transactions drained from the outbox (direct mode)
-	sentMu   sync.Mutex
-	drainWG  sync.WaitGroup
+	Sent      []hotline.Transaction // transactions drained from the outbox (direct mode)
+	sentMu    sync.Mutex
+	drainWG   sync.WaitGroup
 }
 
 var discardLogger = slog.New(slog.NewTextHandler(io.Discard, nil))
@@ -397,10 +397,15 @@ type nullConn struct {
 	wrote  bytes.Buffer
 }
 
-func (c *nullConn) Read(p []byte) (int, error)  { return 0, io.EOF }
-func (c *nullConn) Write(p []byte) (int, error) { c.mu.Lock(); defer c.mu.Unlock(); c.wrote.Write(p); return len(p), nil }
-func (c *nullConn) Close() error                { c.mu.Lock(); defer c.mu.Unlock(); c.closed = true; return nil }
-func (c *nullConn) Closed() bool                { c.mu.Lock(); defer c.mu.Unlock(); return c.closed }
+func (c *nullConn) Read(p []byte) (int, error) { return 0, io.EOF }
+func (c *nullConn) Write(p []byte) (int, error) {
+	c.mu.Lock()
+	defer c.mu.Unlock()
+	c.wrote.Write(p)
+	return len(p), nil
+}
+func (c *nullConn) Close() error { c.mu.Lock(); defer c.mu.Unlock(); c.closed = true; return nil }
+func (c *nullConn) Closed() bool { c.mu.Lock(); defer c.mu.Unlock(); return c.closed }
 
 // NewClient registers a logged-in connection for direct handler calls.
 func (e *Env) NewClient(login string, access hotline.AccessBitmap, addr string) (*hotline.ClientConn, *nullConn) {
@@ -489,7 +494,6 @@ func b1(b bool) []byte {
 	}
 	return []byte{0}
 }
-
 
 // noLeadingLF: yaml.v3 does not round-trip strings that begin with a line feed (known finding
 // "yaml-leading-newline"); ordinary generator profiles avoid them, a dedicated profile exercises exactly them.
